@@ -7,7 +7,39 @@ use crate::props::c03::input_json;
 use crate::tape::*;
 use etherparse::*;
 use serde_json::{json, Value};
-use std::io::Cursor;
+
+thread_local! {
+    /// most bytes one `read` call of the harness reader hands out (usize::MAX = everything available)
+    static CHUNK: std::cell::Cell<usize> = const { std::cell::Cell::new(usize::MAX) };
+}
+
+/// `io::Read` over a byte slice that, like a socket or a small `BufReader`, may deliver fewer bytes
+/// per call than asked for (never 0 before the end). Same interface as `io::Cursor` where it is used.
+struct Cursor<'a> {
+    b: &'a [u8],
+    pos: usize,
+}
+
+impl<'a> Cursor<'a> {
+    fn new(b: &'a [u8]) -> Self {
+        Cursor { b, pos: 0 }
+    }
+    fn position(&self) -> u64 {
+        self.pos as u64
+    }
+}
+
+impl std::io::Read for Cursor<'_> {
+    fn read(&mut self, buf: &mut [u8]) -> std::io::Result<usize> {
+        let n = buf.len().min(self.b.len().saturating_sub(self.pos)).min(CHUNK.with(|c| c.get()));
+        if n == 0 {
+            return Ok(0);
+        }
+        buf[..n].copy_from_slice(&self.b[self.pos..self.pos + n]);
+        self.pos += n;
+        Ok(n)
+    }
+}
 
 pub struct C06;
 
@@ -16,6 +48,22 @@ fn off(base: &[u8], s: &[u8]) -> (isize, usize) {
         (-1, 0)
     } else {
         (s.as_ptr() as isize - base.as_ptr() as isize, s.len())
+    }
+}
+
+impl std::io::Seek for Cursor<'_> {
+    fn seek(&mut self, to: std::io::SeekFrom) -> std::io::Result<u64> {
+        let p = match to {
+            std::io::SeekFrom::Start(n) => n as i128,
+            std::io::SeekFrom::End(d) => self.b.len() as i128 + d as i128,
+            std::io::SeekFrom::Current(d) => self.pos as i128 + d as i128,
+        };
+        if p < 0 {
+            return Err(std::io::Error::new(std::io::ErrorKind::InvalidInput, "seek before start"));
+        }
+        // like io::Cursor: seeking past the end is allowed, reads there return 0
+        self.pos = p as usize;
+        Ok(self.pos as u64)
     }
 }
 
@@ -869,6 +917,21 @@ fn header_views(b: &[u8], ctx: &mut Ctx, out: &mut Vec<PairDiff>) {
             }
         }};
     }
+    // deprecated aliases are documented as plain renames: same verdict, header, rest and error
+    macro_rules! alias {
+        ($name:expr, $t:ty) => {{
+            #[allow(deprecated)]
+            let old = <$t>::read_from_slice(b).map(|p| (format!("{:?}", p.0), off(b, p.1))).map_err(|e| format!("{e:?}"));
+            let new = <$t>::from_slice(b).map(|p| (format!("{:?}", p.0), off(b, p.1))).map_err(|e| format!("{e:?}"));
+            same!(concat!($name, "::read_from_slice~from_slice"), "result", old, new);
+        }};
+    }
+    alias!("Ethernet2Header", Ethernet2Header);
+    alias!("SingleVlanHeader", SingleVlanHeader);
+    alias!("Ipv4Header", Ipv4Header);
+    alias!("Ipv6Header", Ipv6Header);
+    alias!("UdpHeader", UdpHeader);
+    alias!("TcpHeader", TcpHeader);
     // Ethernet II
     match (Ethernet2HeaderSlice::from_slice(b), Ethernet2Slice::from_slice_without_fcs(b), Ethernet2Header::from_slice(b)) {
         (Ok(h), Ok(s), Ok((st, rest))) => {
@@ -1031,6 +1094,16 @@ pub fn check(start: Start, b: &[u8], ranges: &[usize], ctx: &mut Ctx) -> Result<
         v["ranges"] = json!(ranges);
         v
     };
+    // a reader may split its data any way it likes: a quarter of the inputs each are served whole,
+    // byte-wise, in 3-byte and in 7-byte pieces (a pure function of the input, so replays agree)
+    let chunk = match fnv64(b) >> 7 & 3 {
+        0 => usize::MAX,
+        1 => 1,
+        2 => 3,
+        _ => 7,
+    };
+    CHUNK.with(|c| c.set(chunk));
+    ctx.class(if chunk == usize::MAX { "reader:whole" } else { "reader:chunked" });
     let res = catch(|| {
         let mut nt = false;
         if start == Start::Ip {
@@ -1097,7 +1170,7 @@ impl Property for C06 {
         crate::props::c01::C01.describe(tape)
     }
     fn rule(&self) -> String {
-        "case = tape -> (packet grammar 70% | truncated golden packets 10% | noise 20%) with the generated layer starts as additional decode offsets. Pure differential oracle over pairs of equivalent entry points: (1) the IP front ends IpSlice/Ipv4Slice/Ipv6Slice, LaxIpSlice/LaxIpv4Slice/LaxIpv6Slice, Ipv6Slice::from_slice_lax, IpHeaders::{from_slice, from_ipv4_slice, from_ipv6_slice} and their _lax variants: version-dispatching == version-specific, slice family == struct family (unless an extension header no longer fits the struct), on header, extension headers, payload range/number/fragmented, len_source, incomplete, stop error and error record (errors only with a complete base header); (2) from_ethernet(b) == from_ether_type(et, b[14..]) for the four whole-packet families with length-error offsets shifted by exactly 14; (3) from_ether_type(IPv4|IPv6, b) == from_ip(b) when the version nibble matches; (4) T::read(io::Cursor) == T::from_slice for 17 header types (+ Ipv6Extensions for 5 start numbers): same header, cursor position == consumed bytes, or both reject for the same reason (UnexpectedEof <-> length error, content error <-> same content value). evaluations = compared pairs. Non-trivial = a pair got past the base header or a variable-length header was read; distinct = (start, length bucket, number of variable-length reads, version nibble)."
+        "case = tape -> (packet grammar 70% | truncated golden packets 10% | noise 20%) with the generated layer starts as additional decode offsets. Pure differential oracle over pairs of equivalent entry points: (1) the IP front ends IpSlice/Ipv4Slice/Ipv6Slice, LaxIpSlice/LaxIpv4Slice/LaxIpv6Slice, Ipv6Slice::from_slice_lax, IpHeaders::{from_slice, from_ipv4_slice, from_ipv6_slice} and their _lax variants: version-dispatching == version-specific, slice family == struct family (unless an extension header no longer fits the struct), on header, extension headers, payload range/number/fragmented, len_source, incomplete, stop error and error record (errors only with a complete base header); (2) from_ethernet(b) == from_ether_type(et, b[14..]) for the four whole-packet families with length-error offsets shifted by exactly 14; (3) from_ether_type(IPv4|IPv6, b) == from_ip(b) when the version nibble matches; (4) T::read(reader) == T::from_slice for 17 header types, the reader delivering its bytes whole or in 1-, 3- or 7-byte pieces; the six deprecated read_from_slice aliases == from_slice;  (+ Ipv6Extensions for 5 start numbers): same header, cursor position == consumed bytes, or both reject for the same reason (UnexpectedEof <-> length error, content error <-> same content value). evaluations = compared pairs. Non-trivial = a pair got past the base header or a variable-length header was read; distinct = (start, length bucket, number of variable-length reads, version nibble)."
             .into()
     }
     fn assumptions(&self) -> Vec<String> {
